@@ -444,17 +444,18 @@ var _ rpc.Resources
 // apiHandler: a refused origin is answered with 403 before any service request is made for it
 // (a pre-flight OPTIONS request is answered without service requests, too); GET/HEAD take the
 // same path; only valid resource ids reach a connection.
-// The resource id of a request is converted from the path as the client escaped it (the raw
-// path when the URL has one), the URL's raw query and the configured API prefix - for every
-// method alike, so that an escaped slash never becomes a token separator.
-//@ define predReqPath(r *http.Request) string = ite(r.URL.RawPath != "", r.URL.RawPath, r.URL.Path)
+// The resource id of a request is converted from the path as the client escaped it (never from
+// the already unescaped r.URL.Path: the conversion unescapes each part itself, and a part must be
+// unescaped exactly once), the URL's raw query and the configured API prefix in the same escaped
+// form - for every method alike, so that an escaped slash never becomes a token separator.
+//@ define predReqPath(r *http.Request) string = ufStr_escapedpath(r.URL.Path, r.URL.RawPath)
 //@ func (*Service).apiHandler
 //@   requires s != nil && w != nil && r != nil && r.URL != nil && s.enc != nil
-//@   assert[C14] PathToRID#*: arg0 == predReqPath(r) && arg1 == r.URL.RawQuery && arg2 == s.cfg.APIPath
-//@   assert[C14] PathToRIDAction#1: arg0 == predReqPath(r) && arg1 == r.URL.RawQuery && arg2 == s.cfg.APIPath
-//@   assert[C14] s.temporaryConn#1: rid == ufStr_pathrid(predReqPath(r), r.URL.RawQuery, s.cfg.APIPath)
-//@   assert[C14] s.handleCall#1: r.Method == "POST" ==> arg2 == ufStr_pathridcall(predReqPath(r), r.URL.RawQuery, s.cfg.APIPath) && arg3 == ufStr_pathaction(predReqPath(r), r.URL.RawQuery, s.cfg.APIPath)
-//@   assert[C14] s.handleCall#1: r.Method != "POST" ==> arg2 == ufStr_pathrid(predReqPath(r), r.URL.RawQuery, s.cfg.APIPath) &&
+//@   assert[C14] PathToRID#*: arg0 == predReqPath(r) && arg1 == r.URL.RawQuery && arg2 == ufStr_escapedpath(s.cfg.APIPath, "")
+//@   assert[C14] PathToRIDAction#1: arg0 == predReqPath(r) && arg1 == r.URL.RawQuery && arg2 == ufStr_escapedpath(s.cfg.APIPath, "")
+//@   assert[C14] s.temporaryConn#1: rid == ufStr_pathrid(predReqPath(r), r.URL.RawQuery, ufStr_escapedpath(s.cfg.APIPath, ""))
+//@   assert[C14] s.handleCall#1: r.Method == "POST" ==> arg2 == ufStr_pathridcall(predReqPath(r), r.URL.RawQuery, ufStr_escapedpath(s.cfg.APIPath, "")) && arg3 == ufStr_pathaction(predReqPath(r), r.URL.RawQuery, ufStr_escapedpath(s.cfg.APIPath, ""))
+//@   assert[C14] s.handleCall#1: r.Method != "POST" ==> arg2 == ufStr_pathrid(predReqPath(r), r.URL.RawQuery, ufStr_escapedpath(s.cfg.APIPath, "")) &&
 //@       (r.Method == "PUT" ==> s.cfg.PUTMethod != nil && arg3 == *s.cfg.PUTMethod) && (r.Method == "DELETE" ==> s.cfg.DELETEMethod != nil && arg3 == *s.cfg.DELETEMethod) &&
 //@       (r.Method == "PATCH" ==> s.cfg.PATCHMethod != nil && arg3 == *s.cfg.PATCHMethod)
 //@   assumes len(s.cfg.allowOrigin) > 0 && s.conns != nil
